@@ -493,7 +493,45 @@ def run_case(tpl, g, comp, spec, pre_ok=True):
     return {'attr': attr, 'gcls': g['cls'], 'comp': comp, 'spec': spec, 'pre_ok': pre_ok, 'out': out, 'exc': exc,
             'member': member, 'stored_is': stored_is, 'changed': changed, 'verdict': verdict, 'group': grp,
             'state_abs': state_abs, 'val_abs': absval(v), 'code': code, 'stored_abs': stored_abs,
-            'repr': repr(v)[:60]}
+            'repr': safe_repr(v)}
+
+
+def safe_repr(v):
+    try:
+        return repr(v)[:60]
+    except Exception:  # noqa: BLE001
+        return '<%s>' % type(v).__name__
+
+
+def random_specs(g, comp, n):
+    """thorough tier: seeded random numbers around the documented bounds and companions"""
+    r = hlib.rng('c14/%s.%s' % (g['cls'], g['attr']))
+    cs = [float(c) for c in consts_of(g)]
+    for w in comp.values():
+        wv = make(w)
+        if is_number(wv):
+            cs.append(float(wv))
+    if not cs and not any(d[0] == 'type' and set(d[1]) & {'TInt', 'TFloat'} for d in g['doms']):
+        return []
+    cs = cs or [0.0]
+    out = []
+    for _ in range(n):
+        c = r.choice(cs)
+        k = r.random()
+        if k < 0.3:
+            out.append({'k': 'int', 'v': str(int(c) + r.randint(-3, 3))})
+        elif k < 0.6:
+            out.append(fl(c + r.uniform(-1.5, 1.5)))
+        elif k < 0.8:
+            x = c
+            for _ in range(r.randint(1, 4)):
+                x = nextafter(x, r.choice([-INF, INF]))
+            out.append(fl(x))
+        elif k < 0.9:
+            out.append(fl(r.uniform(-1, 1) * 10.0 ** r.randint(-300, 300)))
+        else:
+            out.append({'k': 'npfloat', 'v': float(c + r.uniform(-1, 1)).hex()})
+    return out
 
 
 def companion_states(g):
@@ -686,7 +724,10 @@ def main():
             for comp in companion_states(g):
                 if small and comp and list(comp.values())[0] != {'k': 'int', 'v': '1'}:
                     continue
-                for spec in probes_for(g, comp, small):
+                specs = probes_for(g, comp, small)
+                if not hlib.QUICK:
+                    specs = dedup(specs + random_specs(g, comp, 150))
+                for spec in specs:
                     try:
                         r = run_case(tpl, g, comp, spec)
                     except Exception as ex:  # noqa: BLE001
